@@ -361,9 +361,13 @@ def run_other(case):
             mw = axes[0] if o["as_str"] else tuple(axes)
             r3 = g.interp(da, axes[0], metric_weighted=mw, boundary="extend") if o.get("mw", True) else r2
             r4 = g.interp(da, axes, metric_weighted={a: a for a in axes}, boundary="extend")
+            # derivative and cumint take the axis as a plain string
+            r5 = g.derivative(da, axes[0], boundary="extend")
+            r6 = g.cumint(da, axes[0], boundary="fill")
             return list(r.dims), np.asarray(r.values).ravel().tolist(), \
                 np.asarray(r2.values).ravel().tolist() + np.asarray(r3.values).ravel().tolist() + \
-                np.asarray(r4.values).ravel().tolist()
+                np.asarray(r4.values).ravel().tolist() + np.asarray(r5.values).ravel().tolist() + \
+                np.asarray(r6.values).ravel().tolist()
         try:
             d1, v1, w1 = build({})
             d2, v2, w2 = build(rho)
@@ -479,6 +483,13 @@ def generate(rng, tier):
                 rho = make_rho(rng, names, avoid=(tmp,))
                 rho[o["tname"] if role == "tname" else role] = tmp
                 cases.append({"kind": "transform", "rho": rho, "orig": o})
+    # ... metric operations on grids whose axis names have several letters, one a repetition of the other
+    for ax_names in (("lon", "lat"), ("Z", "ZZ"), ("ZZ", "Z"), ("ab", "ba"), ("X", "XX")):
+        for axes_ in (["X"], ["Y"], ["X", "Y"]):
+            rho = make_rho(rng, ["X", "Y", "xc", "yc", "xl", "yl", "dx", "dy", "area", "temp"], avoid=ax_names)
+            rho["X"], rho["Y"] = ax_names
+            cases.append({"kind": "other", "rho": rho,
+                          "orig": {"what": "metrics", "axes": axes_, "with_area": False, "as_str": len(axes_) == 1}})
     # ... the names of keyword parameters of the xarray methods the package calls, given to each dimension
     # of a cumsum / stencil call in turn (a name must never be passed as a keyword)
     for word in ("drop", "indexers", "missing_dims", "new_name_or_name_dict", "dim", "axis", "keep_attrs", "mode"):
